@@ -11,9 +11,11 @@ import common as C
 
 AREA = "parse"
 VO_MODEL = ["gen/ParseTables.vo", "parse/Lex.vo", "parse/Prim.vo", "parse/Ymd.vo", "parse/Parse.vo",
-            "parse/Build.vo", "parse/ParseSpec.vo", "parse/ParseSpec2.vo", "parse/FuzzyThm.vo"]
-E_LEX, E_PARSE, E_RES = 0, 1, 2
+            "parse/Build.vo", "parse/ParseSpec.vo", "parse/ParseSpec2.vo", "parse/FuzzyThm.vo",
+            "parse/ZoneThm.vo", "parse/Local.vo", "parse/ParseGenProps.vo"]
+E_LEX, E_PARSE, E_RES, E_PARSE_LZ = 0, 1, 2, 3
 E_STRICT_CLASH = 22
+E_ZONE_LZ, E_TZLOCAL_RAISES = 12, 23
 
 _MATCH_ORACLE = []
 
@@ -316,6 +318,45 @@ def zone_object(zk, za):
     return None
 
 
+def local_dst_saved():
+    """tzlocal._dst_saved in seconds, from the time module (0 = no daylight saving time)"""
+    return (_time.timezone - _time.altzone) if _time.daylight else 0
+
+
+def local_naive_dst(dt7):
+    """tzlocal._naive_is_dst of the wall time: the platform's tm_isdst of the wall time read as standard time"""
+    import calendar
+    ts = calendar.timegm(tuple(dt7[:6]) + (0, 0, 0))
+    try:
+        return bool(_time.localtime(ts + _time.timezone).tm_isdst)
+    except (OverflowError, OSError, ValueError):
+        return False
+
+
+def local_zone_args(dt7):
+    """the two leading arguments of the parse_lz / tzlocal_raises oracle entries (Local.v: localz)"""
+    return [local_dst_saved(), int(local_naive_dst(dt7))]
+
+
+def tzlocal_range_hit(o, s, tzname, expected_dt=None):
+    """guard complement of F-C02-tzlocal-range / F-C15-tzlocal-range, evaluated on the model under the
+    process time zone `tzname`: the text resolves to the local zone (probe: first oracle bit set =>
+    ZLocal, Local.local_branch_probe) AND Local.tzlocal_raises holds at the naive result (which must be
+    `expected_dt` when given)"""
+    prev = os.environ.get("TZ")
+    set_tz(tzname)
+    try:
+        probe = dec_outcome(model_raw(o, s))
+        if not (probe[0] == "ok" and probe[4][0] == 3):
+            return False
+        if expected_dt is not None and list(probe[1]) != list(expected_dt):
+            return False
+        r = matcher_oracle().call(E_TZLOCAL_RAISES, local_zone_args(probe[1]) + list(probe[1]))
+        return r == [1]
+    finally:
+        set_tz(prev if prev else "UTC")
+
+
 def run_model(oracle, cases):
     """cases: list of (opts, string).  Two passes: zones whose tzname() is consulted by
     _assign_tzname (local / user object / tzstr) get the two oracle bits computed from the real
@@ -341,7 +382,13 @@ def run_model(oracle, cases):
                 nm1 = dtv.replace(fold=1).tzname() == tzname
             except Exception:
                 nm0, nm1 = True, False
-            reqs.append(enc_call(cases[k][0], cases[k][1], (nm0, nm1)))
+            if out[4][0] == 3:
+                # the local zone can fail (Local.v): parse_lz with the zone's dst_saved and the platform's
+                # tm_isdst at the model's own naive result
+                code, args = enc_call(cases[k][0], cases[k][1], (nm0, nm1))
+                reqs.append((E_PARSE_LZ, local_zone_args(out[1]) + args))
+            else:
+                reqs.append(enc_call(cases[k][0], cases[k][1], (nm0, nm1)))
         second = oracle.call_many(reqs)
         for k, r in zip(redo, second):
             outs[k] = dec_outcome(r)
